@@ -469,6 +469,22 @@ def gen_c03(tier, seed):
                 for _ in range(npat - 1):
                     faults.append(fault_pattern(r, v, e, lambda ec: r.randint(1, max(1, ec // 2))))
                 specs.append((c, faults, (v, e) in ((-2, 'L'), (0, 'Q'), (1, 'H'), (3, 'Q'), (5, 'Q')) and k == 0))
+    # sparse multi-block symbols (whole blocks of pad codewords) whose DATA looks like padding: byte content 0x11 0x11 .. and 0xCE 0xCE ..
+    # becomes, shifted by the 12 / 20 header bits, runs of the pad codewords 0x11 / 0xEC
+    for v, e in ((3, 'H'), (4, 'H'), (4, 'Q'), (5, 'Q'), (5, 'H'), (7, 'H'), (10, 'M')) if tier == 'quick' else [(v, e) for v in range(3, 14) for e in 'MQH']:
+        lay = T.layout(v, e)
+        if len(lay) < 2:
+            continue
+        d = lay[0][0]
+        for b in (b'\x11', b'\xce', b'\xec', b'\x1e\xc1'):
+            for n in (d - 2, d - 1, d, d + 1, d + 2, 2 * d - 1, 2 * d, 2 * d + 1):
+                n = max(1, n // len(b))
+                if n * len(b) * 8 + 20 > T.cap(v, e):
+                    continue
+                c = call('make', b * n, version=v, error=e, boost_error=False)
+                specs.append((c, [fault_pattern(r, v, e, lambda ec: ec // 2)], False))
+        specs.append((call('make', b'\x11' * d + b'\xce' * (d - 2), version=v, error=e, boost_error=False), [fault_pattern(r, v, e, lambda ec: 1)], False))
+        specs.append((call('make', 'A', version=v, error=e, boost_error=False), [fault_pattern(r, v, e, lambda ec: ec // 2)], False))
     # data codeword sequences that start with zero codewords (M4, numeric, one digit: 000 000001 dddd)
     for e in ('L', 'M', 'Q'):
         for d in ('0', '7'):
@@ -538,7 +554,21 @@ def gen_c06(tier, seed):
             e = r.choice(QR_LEVELS)
             mode = r.choice(modes_of(v, hanzi=False))
             calls.append(content_call(r, v, e, mode, r.randint(1, T.max_chars(v, e, mode))))
+    calls += tie_corpus_calls()
     return calls
+
+
+def tie_corpus_calls():
+    """contents whose ISO evaluation has an exact tie at the minimum (with / without an N4 contribution, three-way); selected once by
+    tools/find_mask_ties.py, every entry is re-evaluated by TLC on each run"""
+    import json
+    import os
+    p = os.path.join(common.VERIF, 'harness', 'data', 'mask_ties.json')
+    if not os.path.exists(p):
+        return []
+    with open(p) as f:
+        d = json.load(f)
+    return [call('make_qr', e['content'], version=e['version'], error=e['error'], boost_error=False) for e in d['entries']]
 
 
 def run_c06(rep, tier):
@@ -574,7 +604,13 @@ def run_c06(rep, tier):
         sc = f.get('scores') or []
         # non-trivial: the candidates do not all score the same
         return ('auto', f['v'], f['level'], f['mask'], tuple(sc)) if len(set(sc)) > 1 else None
-    engine.judge_symbols(rep, obs, {'C06'}, key, sample_sym)
+    results = engine.judge_symbols(rep, obs, {'C06'}, key, sample_sym)
+    ties = 0
+    for o, v, _fails in results:
+        sc = v.get('facts', {}).get('scores') or []
+        if sc and o['exp']['mask_req'] < 0 and sc.count(min(sc)) > 1 and o['res']['version'] >= 1:
+            ties += 1
+    rep.notes['automatic_mask_symbols_with_a_tie_at_the_minimum_confirmed_by_tlc'] = ties
     rep.rule = ('requested: all 8 (4) patterns on one symbol per size class; automatic: random contents on M1..4 and one symbol per '
                 'version 5..40 (thorough: more); TLC re-masks the observed symbol with every candidate (format/version areas light), '
                 'scores it with the ISO rules and compares the arg-min / arg-max; non-trivial = candidates with different scores')
